@@ -156,7 +156,7 @@ def run_chunk(args):
     verdict = os.path.join(work, 'c%d.verdict' % idx)
     gen_scripts.write_script(script, segs)
     env = dict(os.environ); env.update(SAN_ENV)
-    p = subprocess.run(['timeout', '600', os.path.join(drvdir, 'drv_seq'), script, raw, '20'], env=env,
+    p = subprocess.run(['timeout', '2400', os.path.join(drvdir, 'drv_seq'), script, raw, '20'], env=env,
                        stdout=subprocess.PIPE, stderr=subprocess.STDOUT, text=True)
     if p.returncode != 0:
         return dict(idx=idx, error='driver rc=%d %s' % (p.returncode, p.stdout[-500:]))
@@ -164,7 +164,7 @@ def run_chunk(args):
     nev = normalize.normalize_file(raw, norm, sites)
     if os.path.exists(verdict):
         os.unlink(verdict)
-    rc, out = tlc('TraceCore.tla', cfgname, work, env={'TRACE': norm, 'VERDICT': verdict}, workers=1, timeout=900)
+    rc, out = tlc('TraceCore.tla', cfgname, work, env={'TRACE': norm, 'VERDICT': verdict}, workers=1, timeout=2400)
     if rc != 0 or not os.path.exists(verdict):
         return dict(idx=idx, error='TLC rc=%d\n%s' % (rc, out[-1500:]))
     viol = [json.loads(l) for l in open(verdict) if l.strip()]
